@@ -11,6 +11,12 @@ CLAIMED = {
     'C03': dict(cat='proof', technique='Coq proof on a Gallina model of check_branches + per-run unit correspondence with the Rust + co-execution on the extracted 6502 semantics',
                 text='Theorems (unbounded over line lists, states, flags): every conditional branch left by check_branches is within -128..127 when its label is unique; the repair skeleton exits exactly where the original branch (pair) did for every flag state; no panic when targets are defined; labels stay unique and defined; the iteration terminates. Tied to src/assemble.rs by running the Rust and the extracted model on the same thousands of boundary-sweeping inputs each run, and by recomputing displacements / co-executing original vs repaired on the implementation\'s own output.',
                 ref='DESIGN.md section 6 C03'),
+    'C02': dict(cat='proof', technique='Coq proofs on a Gallina model of the peephole optimiser (structure for all line lists; per-instruction knowledge soundness and per-rule soundness on the 6502 semantics) + exact per-run correspondence with the Rust + -O0 vs -O1..3 co-execution',
+                text='Proved for all line lists: the optimiser terminates, only turns unprotected instructions (or immediate compares) into Dummy or swaps LDA with SEC/CLC, never touches labels/inline/comments, invents nothing. Proved on the 6502 semantics (when Props/C02sem.v is present): the register-knowledge transfer function is sound for every instruction and each rewrite rule preserves the state up to dead N/Z flags. The global simulation is NOT proved (flag liveness); it is explored by co-executing -O0 against every other level on seeded programs with optimiser baits. Partial.',
+                ref='DESIGN.md section 6 C02'),
+    'C18': dict(cat='proof', technique='Coq proofs (csleep cycle/frame theorem on the 6502 cycle model; optimiser keeps protected instructions and inline assembly) + exhaustive csleep-table correspondence + trace co-execution against the extracted C semantics',
+                text='csleep(n) is proved to take exactly n cycles and to change nothing but DUMMY and the free stack byte for every state, on a table compared exhaustively with the generator each run; the optimiser is proved never to remove, duplicate or reorder protected instructions and inline lines; executed event traces at every level are compared with the trace the C semantics prescribes, and deleting csleep statements must not change final states.',
+                ref='DESIGN.md section 6 C18'),
 }
 
 NOT_YET = {}
